@@ -12,7 +12,10 @@ resolution through a trial array (`getitem`: `_check_finite`, the count of indic
 of the series (the trial array suffices); `C19_evaluated_exactly_selected_once` — the evaluated positions are the selected elements, each
 once, in lexicographic order; `C19_in_bounds` — only in-range elements are ever addressed; `C19_negative_or_infinite_rejected` and
 `C19_wrong_number_rejected` — the IndexError clauses; `C19_request_values`, `C19_item_request_at_most_once` — the two models composed: a request for several
-elements returns the element values position by position and evaluates each selected element at most once, also when the elements depend on each other.  The model's `select` is itself compared with NumPy on dense arrays, and `getitem` with
+elements returns the element values position by position and evaluates each selected element at most once, also when the elements depend on each other;
+`C19_view` — an item on the finite dimensions only gives a view with NumPy's shape whose entry at the orders `o` is the parent element `src ++ o` for the
+source `src` NumPy selects, the orders being handed to the parent as slices of length one (`C19_view_rejected`: it raises exactly when NumPy rejects the item;
+`C19_shape_consistent`: a selection has as many entries as its shape says, so the `reshape` of the view cannot fail).  The model's `select` is itself compared with NumPy on dense arrays, and `getitem` with
 `BlockSeries[item]` (result shape, the source of every entry, the evaluated set, error class, views) by `harness/index_corr.py`;
 `harness/machine_corr.py` adds multi-element requests whose elements depend on each other (`box` requests) against the machine model.
 Trusted: NumPy's own indexing as the reference the model's `select` is tested (not proved) against; masking of `zero` entries is compared
@@ -22,6 +25,7 @@ import PymaVerif.Proofs.MachineThm
 import PymaVerif.Proofs.MachineOnce
 import PymaVerif.Proofs.IndexBounds
 import PymaVerif.Proofs.MachineMany
+import PymaVerif.Proofs.IndexView
 
 namespace Pyma
 namespace Props
@@ -106,11 +110,31 @@ theorem C19_item_request_at_most_once (S : Sys V) (hdefs : ∀ s i, NoPop (S.def
     (run S f (manyScript s a.evaluated v0) ⟨[], 0, []⟩).2.log.Nodup ∧ a.evaluated.Nodup :=
   ⟨request_log_nodup S hdefs f s a.evaluated v0 v h, (C19_evaluated_exactly_selected_once shape ninf item a ha).1⟩
 
+/-- **C19** a selection has as many entries as its shape says -/
+theorem C19_shape_consistent (dims : List Nat) (item : List Index.Ax) (r : Index.Result) (h : Index.select dims item = .ok r) :
+    r.sources.length = Index.prodL r.shape :=
+  Index.select_length h
+
+/-- **C19** views: an item on the finite dimensions only gives the series of NumPy's shape for the item whose entry at the orders `o` is the
+parent element at `src ++ o`, `src` being what NumPy selects; the parent evaluates exactly those elements, each once -/
+theorem C19_view (shape : List Nat) (item : List Index.Ax) (o : List Nat) (hlen : item.length = shape.length) (v : Index.Result)
+    (hv : Index.select shape item = .ok v) :
+    Index.view shape item o = .ok ⟨v.shape, v.sources.map (· ++ o), Index.positions (v.sources.map (· ++ o))⟩ :=
+  Index.view_spec shape item o hlen hv
+
+/-- **C19** a view of an item NumPy rejects raises the same error -/
+theorem C19_view_rejected (shape : List Nat) (item : List Index.Ax) (o : List Nat) (e : Index.Err) (hv : Index.select shape item = .error e) :
+    Index.view shape item o = .error e :=
+  Index.view_rejects shape item o hv
+
 -- non-vacuity: `series[-1, :3:2]`, `series[[0, 1], :, [1, 2]]` (advanced indices apart: their dimension comes first), `series[0, :-1]`
 example : Index.getitem [2] 1 [.int (-1), .slice none (some 3) 2] = .ok ⟨[2], [[1, 0], [1, 2]], [[1, 0], [1, 2]]⟩ := by decide
 example : (Index.getitem [2, 3] 1 [.list [0, 1], .slice none none 1, .list [1, 2]]).map (·.shape) = .ok [2, 3] := by decide
 example : Index.getitem [2] 1 [.int 0, .slice (some 0) (some (-1)) 1] = .error .index := by decide
 example : Index.getitem [2] 1 [.list [1, 1], .int 2] = .ok ⟨[2], [[1, 2], [1, 2]], [[1, 2]]⟩ := by decide
+-- a view with lists apart on the finite dimensions, `series[[0, 1], :, [1, 2]]` at order 4 (the advanced dimension comes first)
+example : Index.view [2, 3, 3] [.list [0, 1], .slice none (some 2) 1, .list [1, 2]] [4] =
+    .ok ⟨[2, 2], [[0, 0, 1, 4], [0, 1, 1, 4], [1, 0, 2, 4], [1, 1, 2, 4]], [[0, 0, 1, 4], [0, 1, 1, 4], [1, 0, 2, 4], [1, 1, 2, 4]]⟩ := by decide
 
 end Props
 end Pyma
